@@ -222,6 +222,9 @@ def cmp_chain_fields(c, kind, orig, loaded, info, with_coeff):
         for i, (q1, q2) in enumerate(zip(orig.qn, loaded.qn)):
             if not (np.asarray(q1).shape == np.asarray(q2).shape and np.array_equal(np.asarray(q1), np.asarray(q2))):
                 probs.append(f"qn[{i}] {np.asarray(q2).tolist()} != {np.asarray(q1).tolist()}")
+            elif isinstance(q1, np.ndarray) and q1.dtype.kind in "iu" and not (isinstance(q2, np.ndarray) and q2.dtype.kind in "iu"):
+                # the labels come back as another kind of container / element type (later relabelling assigns into them)
+                probs.append(f"qn[{i}] type {type(q2).__name__}/{getattr(q2, 'dtype', None)} != ndarray/{q1.dtype}")
     if loaded.qnidx != orig.qnidx:
         probs.append(f"qnidx {loaded.qnidx} != {orig.qnidx}")
     if not np.array_equal(np.asarray(loaded.qntot), np.asarray(orig.qntot)):
@@ -793,8 +796,11 @@ def part_crash(c, quick):
     run_id = 100
     real_os, real_np = tdmps.os, tdmps.np
     try:
-        for dump_mps in ([None] if quick else [None, "one", "all"]):
-            for (f0, b0, t0) in init_states:
+        # (dump_mps, info_interval): the state dump and a reporting interval > 1 must not delay the RESULT file
+        variants = [(None, 1), ("one", 2)] if quick else [(None, 1), ("one", 1), ("all", 1), ("one", 2), ("all", 3), (None, 2)]
+        few = [("absent", "absent", "absent"), ("complete", "absent", "absent"), ("complete", "absent", "partial")]
+        for dump_mps, interval in variants:
+            for (f0, b0, t0) in (init_states if (dump_mps, interval) == (None, 1) or not quick else few):
                 # reference run: record the event list for this initial state
                 def one_run(target, nonexistent_dir=False):
                     nonlocal run_id
@@ -811,6 +817,7 @@ def part_crash(c, quick):
                     crashed = False
                     try:
                         job = Job(inj, run_id, d, "job", dump_mps=dump_mps)
+                        job.info_interval = interval
                         job.evolve(0.1, nsteps)
                     except Crash:
                         crashed = True
@@ -822,7 +829,7 @@ def part_crash(c, quick):
                 events = list(inj.events)
                 dumps = list(inj.dump_of_event)
                 run.count("crash:events-per-run", len(events))
-                info0 = dict(part="crash", initial=dict(job_npz=f0, job_npz_bak=b0, job_npz_tmp=t0), nsteps=nsteps, dump_mps=dump_mps,
+                info0 = dict(part="crash", initial=dict(job_npz=f0, job_npz_bak=b0, job_npz_tmp=t0), nsteps=nsteps, dump_mps=dump_mps, info_interval=interval,
                              fs_calls=events)
                 F, B = os.path.join(d, "job.npz"), os.path.join(d, "job.npz.bak")
                 cf, cb = classify(F, job.log, rid), classify(B, job.log, rid)
@@ -841,7 +848,7 @@ def part_crash(c, quick):
                     for ph in phases:
                         inj2, d2, job2, crashed2, rid2 = one_run((idx, ph))
                         c.evals += 1
-                        c.distinct.add((f0, b0, t0, dump_mps, idx, ph))
+                        c.distinct.add((f0, b0, t0, dump_mps, interval, idx, ph))
                         if not crashed2 or inj2.fired is None:
                             c.violate("crash:harness:crash-point-not-reached", dict(info0, index=idx, phase=ph))
                             continue
